@@ -3,6 +3,7 @@ import io
 
 from harness import common, nsoracles, reader, sysimg, syslevel, sysprops, sysrun
 from harness.props.codecleaf import ISOLINUX
+from harness.props import hybridleaf
 
 MODULE = 'C12'
 
@@ -100,6 +101,7 @@ def run(ctx):
     common.proof_stage(ctx, MODULE, common.theorems_of(MODULE))
     common.setup_impl_path()
     leaf_mbr(ctx)
+    hybridleaf.leaf_correspondence(ctx)
     rng = ctx.rng
     quick = ctx.tier == 'quick'
     for i in range(60 if quick else 800):
